@@ -134,6 +134,13 @@ func runC18(c *core.Ctx) {
 			}
 		})
 		ok, detail := false, "expected exactly one store to the interceptor list inside a loop over the arguments"
+		if nSt == 1 && !core.InLoop(st.Block()) {
+			// the whole batch at once: interceptors = *interceptors.Op(args...) with the variadic parameter itself
+			if call, opName := c18listOp(p, core.Resolve(st.Val)); call != nil && opName == s.op && len(call.Call.Args) == 2 &&
+				core.FieldKey(call.Call.Args[0]) == "SimpleHTTPDef.interceptors" && core.Resolve(call.Call.Args[1]) == ssa.Value(f.Params[1]) {
+				ok, detail = true, "the whole argument list, in order: interceptors = *interceptors."+s.op+"(args...)"
+			}
+		}
 		if nSt == 1 && core.InLoop(st.Block()) {
 			call, opName := c18listOp(p, core.Resolve(st.Val))
 			if call != nil {
@@ -268,11 +275,14 @@ func ascendingIndex(idx ssa.Value) bool {
 }
 
 func c18visit(p *core.Prog, v *ssa.Function) (bool, string) {
-	if len(v.Params) != 3 {
+	if len(v.Params) != 3 && len(v.Params) != 2 {
 		return false, "visitor does not have the shape (receiver, request, index)"
 	}
 	recv, req := v.Params[0], v.Params[1]
-	var idx ssa.Value = v.Params[2]
+	var idx ssa.Value
+	if len(v.Params) == 3 {
+		idx = v.Params[2]
+	}
 	// loop formulation: the index is a phi of the parameter and itself + 1
 	var loopStep *ssa.BinOp
 	core.Instrs(v, func(ins ssa.Instruction) {
@@ -280,7 +290,11 @@ func c18visit(p *core.Prog, v *ssa.Function) (bool, string) {
 			var hasParam bool
 			var step *ssa.BinOp
 			for _, e := range phi.Edges {
-				if e == ssa.Value(v.Params[2]) {
+				if len(v.Params) == 3 && e == ssa.Value(v.Params[2]) {
+					hasParam = true
+				}
+				// the loop written in the entry point itself starts at the constant 0
+				if len(v.Params) == 2 && core.IsIntConst(e, 0) {
 					hasParam = true
 				}
 				if b, isB := e.(*ssa.BinOp); isB && b.Op == token.ADD && b.X == ssa.Value(phi) && core.IsIntConst(b.Y, 1) {
@@ -311,6 +325,9 @@ func c18visit(p *core.Prog, v *ssa.Function) (bool, string) {
 			}
 		}
 	})
+	if idx == nil {
+		return false, "no index stepping from 0 by one found in the visiting loop"
+	}
 	if icall == nil || tcall == nil || (rec == nil && loopStep == nil) || nDyn != 1 {
 		return false, "expected one interceptor call, one transport call and one step to the next index (recursion or loop)"
 	}
